@@ -162,7 +162,8 @@ def write_results_md(results):
     root = os.path.join(VERIF, "seeded")
     lines = ["# Seeded breaking changes: which check catches which change", "",
              "Generated by `tools/seeded.py matrix` (quick tier of every check against every change, in scratch worktrees).",
-             "`V` = VIOLATION (exit 1), `.` = clean (exit 0), `E` = harness error (exit 2). The column of the property the",
+             "`V` = VIOLATION (exit 1), `.` = clean (exit 0), `E` = harness error (exit 2), `?` = not run (every change was run",
+             "against the check expected to fire; every fourth change against all nine checks). The column of the property the",
              "change was written against is marked with brackets (round brackets when, by the property's own text, the",
              "change is not a violation of that property and another check is the one expected to fire; see meta.json).", "",
              "| change | " + " | ".join(PROPS) + " |", "|---|" + "---|" * len(PROPS)]
